@@ -80,7 +80,53 @@ impl Canaries {
             (self.sni_label.clone(), "SNI credentials label"),
             (self.configured_pass.clone(), "configured password"),
             (enc(&self.configured_pass), "configured password, base64"),
+            (enc(&format!("user:{}", self.configured_pass)), "proxy-authorization token of the configured credentials"),
         ]
+    }
+
+    /// A secret inside any base64 run of the line (whatever it was concatenated with before encoding)
+    fn decoded_leak(&self, line: &str) -> Option<&'static str> {
+        use base64::Engine;
+        let raw: [(&str, &'static str); 5] = [
+            (&self.pass, "password, base64-decoded"),
+            (&self.configured_pass, "configured password, base64-decoded"),
+            (&self.authorization, "authorization header value, base64-decoded"),
+            (&self.cookie, "cookie header value, base64-decoded"),
+            (&self.sni_label, "SNI credentials label, base64-decoded"),
+        ];
+        let bytes = line.as_bytes();
+        let is_b64 = |b: u8| b.is_ascii_alphanumeric() || b == b'+' || b == b'/' || b == b'-' || b == b'_';
+        let mut i = 0;
+        while i < bytes.len() {
+            if !is_b64(bytes[i]) {
+                i += 1;
+                continue;
+            }
+            let start = i;
+            while i < bytes.len() && is_b64(bytes[i]) {
+                i += 1;
+            }
+            let run = &line[start..i];
+            if run.len() < 16 {
+                continue;
+            }
+            // the secret may start at any offset of the encoded text: try the four alignments
+            for skip in 0..4.min(run.len()) {
+                let part = &run[skip..];
+                let part = &part[..part.len() - part.len() % 4];
+                for engine in [&base64::engine::general_purpose::STANDARD_NO_PAD, &base64::engine::general_purpose::URL_SAFE_NO_PAD] {
+                    if let Ok(d) = engine.decode(part) {
+                        let text = String::from_utf8_lossy(&d);
+                        for (secret, what) in &raw {
+                            if text.contains(*secret) {
+                                return Some(what);
+                            }
+                        }
+                    }
+                }
+            }
+        }
+        None
     }
 }
 
@@ -101,9 +147,16 @@ fn build_request(c: &Case, k: &Canaries) -> Req {
     let mut extra = vec![];
     if c.with_authorization {
         extra.push(("Authorization".to_string(), format!("Bearer {}", k.authorization).into_bytes()));
+        if c.nonce % 2 == 0 {
+            // a repeated field: every value is a secret, not only the first
+            extra.push(("Authorization".to_string(), format!("Basic {}", b64(&k.authorization)).into_bytes()));
+        }
     }
     if c.with_cookie {
         extra.push(("Cookie".to_string(), format!("sid={}", k.cookie).into_bytes()));
+        if c.nonce % 2 == 0 {
+            extra.push(("Cookie".to_string(), format!("theme=dark; token={}", b64(&k.cookie)).into_bytes()));
+        }
     }
     Req {
         method: c.method.clone(),
@@ -330,6 +383,10 @@ impl Suite for LeakSuite {
         for line in &logs {
             if line == "PANIC in scenario" {
                 return viol("leak:scenario-panicked", "the scenario panicked");
+            }
+            if let Some(what) = k.decoded_leak(line) {
+                let target = line.split(' ').nth(1).unwrap_or("?").to_string();
+                return viol(&format!("leak:{}:{}", target, what.replace(' ', "-")), format!("{} appears in a log record: {}", what, &line[..line.len().min(400)]));
             }
             for (needle, what) in k.needles() {
                 if line.contains(&needle) {
